@@ -1017,8 +1017,71 @@ theorem rootSpansAux_join (items : List Str) (hne : items ≠ [])
 
 theorem rootSpans_join (items : List Str) (hne : items ≠ [])
     (hbal : ∀ t ∈ items, Balanced t = true) (hnc : ∀ t ∈ items, NoRootComma t = true) :
-    rootSpans (joinD [','] items) = .ok (items.map jsTrim) := by
+    rootSpans (joinD [','] items) = .ok (dropTrailingEmptySpan (items.map jsTrim)) := by
   simp [rootSpans, rootSpansAux_join items hne hbal hnc, Except.map]
+
+/-- the last item is visible (not blank after `trim()`), or it is the only item: then no span is dropped -/
+def LastVisible (items : List Str) : Bool :=
+  items.length ≤ 1 || (match items.getLast? with | some t => !(jsTrim t).isEmpty | none => true)
+
+theorem dropTrailingEmptySpan_of_lastVisible (items : List Str) (h : LastVisible items = true) :
+    dropTrailingEmptySpan (items.map jsTrim) = items.map jsTrim := by
+  unfold dropTrailingEmptySpan
+  split
+  · rename_i hc
+    obtain ⟨h1, h2⟩ := hc
+    rw [List.length_map] at h1
+    rw [List.getLast?_map] at h2
+    unfold LastVisible at h
+    have hle : ¬ items.length ≤ 1 := by omega
+    simp only [hle, decide_false, Bool.false_or] at h
+    cases hl : items.getLast? with
+    | none => rw [hl] at h2; simp at h2
+    | some t =>
+      rw [hl] at h h2
+      simp only [Option.map_some, Option.some.injEq] at h2
+      simp [h2] at h
+  · rfl
+
+theorem dropTrailingEmptySpan_snoc_nil (l : List Str) (hne : l ≠ []) : dropTrailingEmptySpan (l ++ [[]]) = l := by
+  unfold dropTrailingEmptySpan
+  have h1 : 1 < (l ++ [[]]).length := by
+    cases l with
+    | nil => exact absurd rfl hne
+    | cons a as => simp
+  rw [if_pos ⟨h1, List.getLast?_concat⟩, List.dropLast_concat]
+
+theorem rootSpans_join_visible (items : List Str) (hne : items ≠ [])
+    (hbal : ∀ t ∈ items, Balanced t = true) (hnc : ∀ t ∈ items, NoRootComma t = true) (hlast : LastVisible items = true) :
+    rootSpans (joinD [','] items) = .ok (items.map jsTrim) := by
+  rw [rootSpans_join items hne hbal hnc, dropTrailingEmptySpan_of_lastVisible items hlast]
+
+/-- texts without brackets and commas do not move the machine -/
+theorem plain_run (t : Str) (h : ∀ c ∈ t, isOpenB c = false ∧ isCloseB c = false ∧ (c == ',') = false)
+    (st : List Char) (d : Nat) : bracketRun t st = some st ∧ noRootCommaFrom d t = true := by
+  induction t with
+  | nil => exact ⟨rfl, rfl⟩
+  | cons c cs ih =>
+    obtain ⟨h1, h2, h3⟩ := h c (by simp)
+    have := ih (fun x hx => h x (by simp [hx]))
+    rw [bracketRun_cons, noRootCommaFrom_cons]
+    simp [h1, h2, h3, this]
+
+theorem spaces_plain (k : Nat) : Balanced (List.replicate k ' ') = true ∧ NoRootComma (List.replicate k ' ') = true := by
+  have := plain_run (List.replicate k ' ') (by
+    intro c hc; rw [(List.mem_replicate.mp hc).2]; decide) [] 0
+  simp [Balanced, NoRootComma, this]
+
+theorem joinD_snoc (d : Str) (items : List Str) (hne : items ≠ []) (x : Str) :
+    joinD d (items ++ [x]) = joinD d items ++ d ++ x := by
+  induction items with
+  | nil => exact absurd rfl hne
+  | cons a as ih =>
+    cases as with
+    | nil => rfl
+    | cons b bs =>
+      rw [List.cons_append, List.cons_append, joinD_cons_cons, ← List.cons_append, ih (by simp), joinD_cons_cons]
+      simp [List.append_assoc]
 
 /-- the stack of the span parser evolves exactly as the bracket machine, whatever the commas do -/
 theorem rootSpansAux_prefix (pre rest : Str) (st st' : List Char) (cur : Str) (done : List Str)
@@ -1350,13 +1413,34 @@ theorem aligned_of_itemsMatchTexts (items : List SItem) (texts : List Str) (lits
         first | exact absurd h1 id | (rw [hk]; trivial) | exact hk
 
 theorem adhocColumnInfos_join (texts : List Str) (hne : texts ≠ []) (lits : List Str)
-    (hbal : ∀ t ∈ texts, Balanced t = true) (hnc : ∀ t ∈ texts, NoRootComma t = true) :
+    (hbal : ∀ t ∈ texts, Balanced t = true) (hnc : ∀ t ∈ texts, NoRootComma t = true) (hlast : LastVisible texts = true) :
     adhocColumnInfos (joinD [','] texts) lits = .ok (texts.map (fun t => colInfoOfSpan t lits)) := by
-  rw [adhocColumnInfos, rootSpans_join texts hne hbal hnc]
+  rw [adhocColumnInfos, rootSpans_join_visible texts hne hbal hnc hlast]
   simp only [Except.map, List.map_map, Except.ok.injEq]
   apply List.map_congr_left
   intro t _
   simp only [Function.comp, colInfoOfSpan_eq, jsTrim_idem]
+
+theorem jsTrim_spaces (k : Nat) : jsTrim (spaces k) = [] := by
+  have := jsTrim_pad k 0 []
+  simpa [spaces, jsTrim, stripBy] using this
+
+/-- a trailing comma, optionally followed by spaces, is not an item -/
+theorem rootSpans_trailing_comma (items : List Str) (hne : items ≠ [])
+    (hbal : ∀ t ∈ items, Balanced t = true) (hnc : ∀ t ∈ items, NoRootComma t = true) (hlast : LastVisible items = true)
+    (k : Nat) : rootSpans (joinD [','] items ++ [','] ++ spaces k) = rootSpans (joinD [','] items) := by
+  rw [← joinD_snoc [','] items hne (spaces k), rootSpans_join_visible items hne hbal hnc hlast,
+    rootSpans_join (items ++ [spaces k]) (by simp)
+      (by intro t ht; simp only [List.mem_append, List.mem_singleton] at ht
+          rcases ht with ht | rfl
+          · exact hbal t ht
+          · exact (spaces_plain k).1)
+      (by intro t ht; simp only [List.mem_append, List.mem_singleton] at ht
+          rcases ht with ht | rfl
+          · exact hnc t ht
+          · exact (spaces_plain k).2)]
+  rw [List.map_append, List.map_singleton, jsTrim_spaces,
+    dropTrailingEmptySpan_snoc_nil _ (by simpa using hne)]
 
 theorem marker_balanced : ∀ x, Balanced (markerOf x) = true ∧ NoRootComma (markerOf x) = true := by
   intro x; rcases x with _ | (_ | _) <;> decide
